@@ -74,7 +74,11 @@ def in_bounds(mono):
 SCALINGS = [("*mag2", "decltype(%s{} * au::mag<2>())", model.mag_int(2)),
             ("/mag3", "decltype(%s{} / au::mag<3>())", model.mag_ratio(1, 3)),
             ("*5/7", "decltype(%s{} * (au::mag<5>() / au::mag<7>()))", model.mag_ratio(5, 7)),
-            ("*pi", "decltype(%s{} * au::Magnitude<au::Pi>{})", dict(model.MAG_PI))]
+            ("*pi", "decltype(%s{} * au::Magnitude<au::Pi>{})", dict(model.MAG_PI)),
+            # scaling by a magnitude that is exactly ONE must be the identity, also on an already scaled unit
+            ("*one", "decltype(%s{} * au::mag<1>())", {}),
+            ("*6/6", "decltype(%s{} * (au::mag<6>() / au::mag<6>()))", {}),
+            ("*2*3/6", "decltype(%s{} * au::mag<2>() * au::mag<3>() / au::mag<6>())", {})]
 
 
 def successors(atoms, st, menu):
